@@ -216,6 +216,9 @@ type env struct {
 	vals []V
 	got  map[int]Out
 	disp map[string]string // AsString of the object / instance operands the scripts build (probed once)
+	// what gettype() says about a witness value of each kind (probed once: gettype of "", true, 0, 0.5 …)
+	typeName map[string]string
+	lastGot  map[int]Out // all records of the last evalBatch (obs cases record a second value under refBase+i)
 }
 
 type fnV struct{ e *env }
@@ -305,6 +308,20 @@ func newEnv() *env {
 	e.VM.AddFunc(&fnR{e})
 	e.VM.AddFunc(&fnE{e})
 	e.runBatch(nil, operandInit("o", 0, V{K: "o"})+operandInit("c", 0, V{K: "c"})+"__r(0 - 1, $o);\n__r(0 - 2, $c);\n")
+	// names gettype() gives the kinds, taken from witness values
+	wit := []V{vs(""), vb(true), vi(0), vf(0.5), vn(), va(0), {K: "o"}, {K: "c"}}
+	var sb strings.Builder
+	for i, w := range wit {
+		sb.WriteString(operandInit("w", i, w))
+		sb.WriteString(fmt.Sprintf("__r(%d, gettype($w));\n", i))
+	}
+	got, _ := e.runBatch(wit, sb.String())
+	e.typeName = map[string]string{}
+	for i, w := range wit {
+		if o, ok := got[i]; ok && o.Kind == "val" && o.Val.K == "s" {
+			e.typeName[w.K] = o.Val.Str()
+		}
+	}
 	return e
 }
 
